@@ -972,10 +972,14 @@ func Main(t *testing.T, c Check) {
 		"wall_s":      time.Since(start).Seconds(),
 		"violations":  nviol,
 	}
-	_ = os.MkdirAll(filepath.Join(dir, "evidence"), 0o755)
+	evDir := filepath.Join(dir, "evidence")
+	if d := os.Getenv("VERIF_EVIDENCE_DIR"); d != "" {
+		evDir = d
+	}
+	_ = os.MkdirAll(evDir, 0o755)
 	eb, _ := json.MarshalIndent(ev, "", " ")
 	if only == nil {
-		_ = os.WriteFile(filepath.Join(dir, "evidence", c.ID+".json"), eb, 0o644)
+		_ = os.WriteFile(filepath.Join(evDir, c.ID+".json"), eb, 0o644)
 	}
 	fmt.Printf("SUMMARY property=%s tier=%s scenarios=%d executions=%d cases=%d states=%d transitions=%d outcomes=%d capped=%d abandoned=%d violations=%d wall=%.1fs\n",
 		c.ID, tier, len(res.srecs), execs, cases, states, trans, outcomes, capped, abandoned, nviol, time.Since(start).Seconds())
